@@ -192,6 +192,11 @@ func (r *Run) Finish() int {
 		g.n++
 	}
 
+	if os.Getenv("VERIF_DEBUG") != "" {
+		bz, _ := json.MarshalIndent(r.findings, "", " ")
+		_ = os.MkdirAll(filepath.Join(Root, ".work"), 0o755)
+		_ = os.WriteFile(filepath.Join(Root, ".work", r.Property+"-findings.json"), bz, 0o644)
+	}
 	replayDir := filepath.Join(Root, "replays", r.Property)
 	_ = os.MkdirAll(replayDir, 0o755)
 	writeReplay := func(name string, f Finding, n int) string {
